@@ -227,6 +227,7 @@ type validAddr struct {
 	local  string   // base local part: NFC, lower case where cased
 	quoted bool     // local part uses quoted-string syntax (then kept verbatim in variants except case/NF of letters outside ASCII specials)
 	labels []string // base labels: NFC lower-case U-labels or ASCII
+	dot    bool     // the domain is written with a trailing dot (root label) in every spelling; group F only
 	feat   string
 }
 
@@ -413,16 +414,31 @@ func nonLuFlip(s string, p *prng.R) string {
 	return string(rs)
 }
 
-func (v validAddr) base() string { return v.local + "@" + strings.Join(v.labels, ".") }
+func (v validAddr) base() string { return v.local + "@" + strings.Join(v.labels, ".") + v.root() }
+
+func (v validAddr) root() string {
+	if v.dot {
+		return "."
+	}
+	return ""
+}
+
+// singletonFlip replaces k, å and ω by the Kelvin, Angstrom and Ohm signs (U+212A, U+212B, U+2126).
+// Each sign has a singleton canonical decomposition to the ordinary capital letter, so the result is
+// a Unicode-normalisation variant (NFC gives K, Å, Ω) of the upper-case spelling of the letter; neither
+// NFC nor NFD of any other spelling ever produces the signs, which is why they are a kind of their own.
+func singletonFlip(s string) string {
+	return strings.NewReplacer("k", "\u212a", "å", "\u212b", "ω", "\u2126").Replace(s)
+}
 
 // spellings returns variants that are, by construction, spellings of the same address.
 func (v validAddr) spellings(p *prng.R) (out []string, kinds []string) {
-	uDom := strings.Join(v.labels, ".")
+	uDom := strings.Join(v.labels, ".") + v.root()
 	al := make([]string, len(v.labels))
 	for i, l := range v.labels {
 		al[i] = aLabel(l)
 	}
-	aDom := strings.Join(al, ".")
+	aDom := strings.Join(al, ".") + v.root()
 	add := func(kind, l, d string) {
 		out = append(out, l+"@"+d)
 		kinds = append(kinds, kind)
@@ -449,6 +465,13 @@ func (v validAddr) spellings(p *prng.R) (out []string, kinds []string) {
 		add("local-nonlu-cased", f, uDom)
 		add("local-nonlu-cased-mixed", nonLuFlip(v.local, q), uDom)
 		add("local-nonlu-cased-nfd", norm.NFD.String(f), uDom)
+	}
+	// compatibility signs with a singleton decomposition (no PRNG draw: every k / å / ω is replaced)
+	if f := singletonFlip(v.local); f != v.local {
+		add("local-singleton-sign", f, uDom)
+	}
+	if f := singletonFlip(uDom); f != uDom {
+		add("dom-singleton-sign", v.local, f)
 	}
 	return
 }
@@ -505,6 +528,7 @@ func TestVerif(t *testing.T) {
 
 	postmasterGroup(t, r)
 	concurrentGroup(t, r)
+	fakeGroup(t, r)
 
 	batches := r.N(800, 20000)
 	const per = 1000
@@ -636,110 +660,7 @@ func TestVerif(t *testing.T) {
 				}
 
 				// ---------- valid addresses ----------
-				v := genValid(p)
-				base := v.base()
-				feat := v.feat
-				if !address.Valid(base) {
-					r.Count("generator_addresses_rejected_by_Valid", 1)
-					continue
-				}
-				r.Count("valid_addresses", 1)
-				key, err := address.ForLookup(base)
-				if err != nil {
-					fail("forlookup-error-on-valid", witnessFeature(base), fmt.Sprintf("ForLookup(%q) fails: %v", base, err), map[string]any{"addr": base})
-					continue
-				}
-				sp, kinds := v.spellings(p)
-				for j, s := range sp {
-					k, err := address.ForLookup(s)
-					if err != nil || k != key {
-						fail("one-key-per-class/"+kinds[j], witnessFeature(s), fmt.Sprintf("spelling %q (%s) of %q has key %q (err %v), base key %q", s, kinds[j], base, k, err, key), map[string]any{"base": base, "spelling": s, "kind": kinds[j], "key": k, "base_key": key})
-					}
-					law("one-key-per-class/"+kinds[j], feat)
-					if strings.HasPrefix(kinds[j], "local-nonlu-cased") {
-						r.Count("nonlu_cased_spellings_checked", 1)
-					}
-					if !address.Equal(s, base) || !address.Equal(base, s) {
-						fail("equal-within-class/"+kinds[j], witnessFeature(s), fmt.Sprintf("Equal(%q,%q) is false for spellings of one address", s, base), map[string]any{"base": base, "spelling": s})
-					}
-					law("equal-within-class/"+kinds[j], feat)
-					// idempotence of the key on every spelling
-					kk, err2 := address.ForLookup(k)
-					if err == nil && (err2 != nil || kk != k) {
-						fail("forlookup-idempotent", witnessFeature(s), fmt.Sprintf("ForLookup(%q)=%q but ForLookup of that = %q (err %v)", s, k, kk, err2), map[string]any{"addr": s, "once": k, "twice": kk})
-					}
-					law("forlookup-idempotent/"+kinds[j], feat)
-					cd, err := address.CleanDomain(s)
-					if err != nil {
-						fail("cleandomain-error-on-valid", witnessFeature(s), fmt.Sprintf("CleanDomain(%q) fails: %v", s, err), map[string]any{"addr": s})
-					} else {
-						cd2, err2 := address.CleanDomain(cd)
-						if err2 != nil || cd2 != cd {
-							fail("cleandomain-idempotent", witnessFeature(s), fmt.Sprintf("CleanDomain(%q)=%q, again = %q (err %v)", s, cd, cd2, err2), map[string]any{"addr": s, "once": cd, "twice": cd2})
-						}
-						// domain part of all spellings cleans to one domain; local part untouched
-						mb, dom, _ := address.Split(cd)
-						mb0, _, _ := address.Split(s)
-						_, dom0, _ := address.Split(func() string { x, _ := address.CleanDomain(base); return x }())
-						if mb != mb0 || dom != dom0 {
-							fail("cleandomain-class/"+kinds[j], witnessFeature(s), fmt.Sprintf("CleanDomain(%q)=%q; expected local part %q kept and domain %q", s, cd, mb0, dom0), map[string]any{"addr": s, "got": cd})
-						}
-					}
-					law("cleandomain/"+kinds[j], feat)
-					// split / join
-					mb, dom, err := address.Split(s)
-					if err != nil || mb+"@"+dom != s || strings.Contains(dom, "@") {
-						fail("split-join", witnessFeature(s), fmt.Sprintf("Split(%q) = %q, %q, %v", s, mb, dom, err), map[string]any{"addr": s})
-					}
-					law("split-join/"+kinds[j], feat)
-					// domain-level laws
-					dk, derr := dns.ForLookup(dom)
-					_, kdom, _ := address.Split(key)
-					if derr != nil || dk != kdom {
-						fail("dns-one-key-per-class/"+kinds[j], witnessFeature(dom), fmt.Sprintf("dns.ForLookup(%q)=%q (err %v), expected %q", dom, dk, derr, kdom), map[string]any{"domain": dom, "key": dk, "want": kdom})
-					} else if dk2, e := dns.ForLookup(dk); e != nil || dk2 != dk {
-						fail("dns-forlookup-idempotent", witnessFeature(dom), fmt.Sprintf("dns.ForLookup not idempotent on %q: %q then %q", dom, dk, dk2), map[string]any{"domain": dom})
-					}
-					law("dns-key/"+kinds[j], feat)
-				}
-				// ASCII <-> Unicode round trips on the canonical spellings
-				uForm := sp[0]
-				aForm := sp[5]
-				if isASCII(v.local) {
-					a, err := address.ToASCII(uForm)
-					if err != nil || a != aForm {
-						fail("toascii", witnessFeature(uForm), fmt.Sprintf("ToASCII(%q) = %q, %v; want %q", uForm, a, err, aForm), map[string]any{"addr": uForm, "got": a, "want": aForm})
-					}
-					u, err := address.ToUnicode(aForm)
-					if err != nil || u != uForm {
-						fail("tounicode", witnessFeature(aForm), fmt.Sprintf("ToUnicode(%q) = %q, %v; want %q", aForm, u, err, uForm), map[string]any{"addr": aForm, "got": u, "want": uForm})
-					}
-					if err == nil {
-						back, err := address.ToASCII(u)
-						if err != nil || back != aForm {
-							fail("ascii-unicode-roundtrip", witnessFeature(aForm), fmt.Sprintf("ToASCII(ToUnicode(%q)) = %q, %v", aForm, back, err), map[string]any{"addr": aForm})
-						}
-					}
-					law("ascii-unicode-roundtrip", feat)
-				} else {
-					if _, err := address.ToASCII(uForm); err == nil {
-						fail("toascii-accepts-unicode-local", witnessFeature(uForm), fmt.Sprintf("ToASCII(%q) succeeded although the local part is not ASCII", uForm), map[string]any{"addr": uForm})
-					}
-					law("toascii-refuses-unicode-local", feat)
-				}
-				// quoting round trip on the unquoted local part
-				if v.quoted {
-					raw, err := address.UnquoteMbox(v.local)
-					if err != nil {
-						fail("unquote-valid", witnessFeature(v.local), fmt.Sprintf("UnquoteMbox(%q) fails: %v", v.local, err), map[string]any{"local": v.local})
-					} else if back, err := address.UnquoteMbox(address.QuoteMbox(raw)); err != nil || back != raw {
-						fail("quote-roundtrip", witnessFeature(raw), fmt.Sprintf("UnquoteMbox(QuoteMbox(%q)) = %q, %v", raw, back, err), map[string]any{"raw": raw})
-					}
-					law("quote-roundtrip-valid", feat)
-				}
-				if i < 8 && b == 0 {
-					r.Sample(map[string]any{"base": base, "spellings": sp, "key": key})
-				}
+				judgeValid(r, genValid(p), p, law, fail, i < 8 && b == 0)
 			}
 			ss := make([]string, 0, len(shapes))
 			for s := range shapes {
@@ -750,3 +671,116 @@ func TestVerif(t *testing.T) {
 		})
 	}
 }
+
+// judgeValid evaluates every law about valid addresses on one generated address and its spellings.
+func judgeValid(r *rep.Reporter, v validAddr, p *prng.R, law func(name, feat string), fail func(lawName, feat, what string, w map[string]any), sample bool) {
+	base := v.base()
+	feat := v.feat
+	if !address.Valid(base) {
+		r.Count("generator_addresses_rejected_by_Valid", 1)
+		return
+	}
+	r.Count("valid_addresses", 1)
+	if v.dot {
+		r.Count("trailing_dot_addresses", 1)
+	}
+	key, err := address.ForLookup(base)
+	if err != nil {
+		fail("forlookup-error-on-valid", witnessFeature(base), fmt.Sprintf("ForLookup(%q) fails: %v", base, err), map[string]any{"addr": base})
+		return
+	}
+	sp, kinds := v.spellings(p)
+	for j, s := range sp {
+		k, err := address.ForLookup(s)
+		if err != nil || k != key {
+			fail("one-key-per-class/"+kinds[j], witnessFeature(s), fmt.Sprintf("spelling %q (%s) of %q has key %q (err %v), base key %q", s, kinds[j], base, k, err, key), map[string]any{"base": base, "spelling": s, "kind": kinds[j], "key": k, "base_key": key})
+		}
+		law("one-key-per-class/"+kinds[j], feat)
+		if strings.HasPrefix(kinds[j], "local-nonlu-cased") {
+			r.Count("nonlu_cased_spellings_checked", 1)
+		}
+		if strings.HasSuffix(kinds[j], "-singleton-sign") {
+			r.Count("singleton_sign_spellings_checked", 1)
+		}
+		if !address.Equal(s, base) || !address.Equal(base, s) {
+			fail("equal-within-class/"+kinds[j], witnessFeature(s), fmt.Sprintf("Equal(%q,%q) is false for spellings of one address", s, base), map[string]any{"base": base, "spelling": s})
+		}
+		law("equal-within-class/"+kinds[j], feat)
+		// idempotence of the key on every spelling
+		kk, err2 := address.ForLookup(k)
+		if err == nil && (err2 != nil || kk != k) {
+			fail("forlookup-idempotent", witnessFeature(s), fmt.Sprintf("ForLookup(%q)=%q but ForLookup of that = %q (err %v)", s, k, kk, err2), map[string]any{"addr": s, "once": k, "twice": kk})
+		}
+		law("forlookup-idempotent/"+kinds[j], feat)
+		cd, err := address.CleanDomain(s)
+		if err != nil {
+			fail("cleandomain-error-on-valid", witnessFeature(s), fmt.Sprintf("CleanDomain(%q) fails: %v", s, err), map[string]any{"addr": s})
+		} else {
+			cd2, err2 := address.CleanDomain(cd)
+			if err2 != nil || cd2 != cd {
+				fail("cleandomain-idempotent", witnessFeature(s), fmt.Sprintf("CleanDomain(%q)=%q, again = %q (err %v)", s, cd, cd2, err2), map[string]any{"addr": s, "once": cd, "twice": cd2})
+			}
+			// domain part of all spellings cleans to one domain; local part untouched
+			mb, dom, _ := address.Split(cd)
+			mb0, _, _ := address.Split(s)
+			_, dom0, _ := address.Split(func() string { x, _ := address.CleanDomain(base); return x }())
+			if mb != mb0 || dom != dom0 {
+				fail("cleandomain-class/"+kinds[j], witnessFeature(s), fmt.Sprintf("CleanDomain(%q)=%q; expected local part %q kept and domain %q", s, cd, mb0, dom0), map[string]any{"addr": s, "got": cd})
+			}
+		}
+		law("cleandomain/"+kinds[j], feat)
+		// split / join
+		mb, dom, err := address.Split(s)
+		if err != nil || mb+"@"+dom != s || strings.Contains(dom, "@") {
+			fail("split-join", witnessFeature(s), fmt.Sprintf("Split(%q) = %q, %q, %v", s, mb, dom, err), map[string]any{"addr": s})
+		}
+		law("split-join/"+kinds[j], feat)
+		// domain-level laws
+		dk, derr := dns.ForLookup(dom)
+		_, kdom, _ := address.Split(key)
+		if derr != nil || dk != kdom {
+			fail("dns-one-key-per-class/"+kinds[j], witnessFeature(dom), fmt.Sprintf("dns.ForLookup(%q)=%q (err %v), expected %q", dom, dk, derr, kdom), map[string]any{"domain": dom, "key": dk, "want": kdom})
+		} else if dk2, e := dns.ForLookup(dk); e != nil || dk2 != dk {
+			fail("dns-forlookup-idempotent", witnessFeature(dom), fmt.Sprintf("dns.ForLookup not idempotent on %q: %q then %q", dom, dk, dk2), map[string]any{"domain": dom})
+		}
+		law("dns-key/"+kinds[j], feat)
+	}
+	// ASCII <-> Unicode round trips on the canonical spellings
+	uForm := sp[0]
+	aForm := sp[5]
+	if isASCII(v.local) {
+		a, err := address.ToASCII(uForm)
+		if err != nil || a != aForm {
+			fail("toascii", witnessFeature(uForm), fmt.Sprintf("ToASCII(%q) = %q, %v; want %q", uForm, a, err, aForm), map[string]any{"addr": uForm, "got": a, "want": aForm})
+		}
+		u, err := address.ToUnicode(aForm)
+		if err != nil || u != uForm {
+			fail("tounicode", witnessFeature(aForm), fmt.Sprintf("ToUnicode(%q) = %q, %v; want %q", aForm, u, err, uForm), map[string]any{"addr": aForm, "got": u, "want": uForm})
+		}
+		if err == nil {
+			back, err := address.ToASCII(u)
+			if err != nil || back != aForm {
+				fail("ascii-unicode-roundtrip", witnessFeature(aForm), fmt.Sprintf("ToASCII(ToUnicode(%q)) = %q, %v", aForm, back, err), map[string]any{"addr": aForm})
+			}
+		}
+		law("ascii-unicode-roundtrip", feat)
+	} else {
+		if _, err := address.ToASCII(uForm); err == nil {
+			fail("toascii-accepts-unicode-local", witnessFeature(uForm), fmt.Sprintf("ToASCII(%q) succeeded although the local part is not ASCII", uForm), map[string]any{"addr": uForm})
+		}
+		law("toascii-refuses-unicode-local", feat)
+	}
+	// quoting round trip on the unquoted local part
+	if v.quoted {
+		raw, err := address.UnquoteMbox(v.local)
+		if err != nil {
+			fail("unquote-valid", witnessFeature(v.local), fmt.Sprintf("UnquoteMbox(%q) fails: %v", v.local, err), map[string]any{"local": v.local})
+		} else if back, err := address.UnquoteMbox(address.QuoteMbox(raw)); err != nil || back != raw {
+			fail("quote-roundtrip", witnessFeature(raw), fmt.Sprintf("UnquoteMbox(QuoteMbox(%q)) = %q, %v", raw, back, err), map[string]any{"raw": raw})
+		}
+		law("quote-roundtrip-valid", feat)
+	}
+	if sample {
+		r.Sample(map[string]any{"base": base, "spellings": sp, "key": key})
+	}
+			}
